@@ -1286,6 +1286,7 @@ theorem c07_shape_Overlay_TransmitMsg :
      "instancesLock.Lock", "o.cleanTreeStorage", "instancesLock.Unlock",
      "o.newTreeNodeInstanceFromToken", "treeStorage.Set", "o.hasPendingMsg",
      "o.checkPendingMessages", "To.ID", "o.getConfig", "serviceManager.newProtocol",
+     "instancesLock.Lock", "o.nodeDelete", "instancesLock.Unlock",
      "instancesLock.Lock", "o.nodeDelete", "instancesLock.Unlock", "go{", "defer{", "tni.Token",
      "ServiceFactory.Name", "}", "pi.Dispatch", "tni.Token", "ServiceFactory.Name", "}",
      "o.RegisterProtocolInstance", "pi.ProcessProtocolMsg"] := rfl
